@@ -22,7 +22,7 @@ func (Prop) ID() string    { return "C11" }
 func (Prop) Level() string { return "model_checking" }
 func (Prop) Configs(tier string) []string {
 	// ZUC dispatch: supportsAES (asm keystream) x useAVX (AVX / SSE bodies) x supportsGFMUL (CLMUL EIA rounds), purego tag.
-	return []string{"c-default", "c-nopclmul", "c-noaes", "c-sse", "c-noavx2", "c-purego"}
+	return []string{"c-default", "c-nopclmul", "c-noaes", "c-sse", "c-noavx2", "c-purego", "c-avxoff"}
 }
 func (Prop) SelfTest() error {
 	if err := zucref.SelfTest(); err != nil {
